@@ -1,5 +1,6 @@
 import Poulpy.Lemmas.CkksMask
 import Poulpy.Lemmas.CkksMulPt
+import Poulpy.Lemmas.CkksCnv
 import Poulpy.Lemmas.CkksAccBound
 import Poulpy.Lemmas.CkksPt
 /-!
@@ -68,7 +69,7 @@ theorem mulPt_contract {N b r K : Nat} (hN : 0 < N) (big : Bool) (rs cnv : Nat) 
     (hhi : (cnvOffsetSplit b cnv).1 ≤ divCeil K b + sb - 1)
     (hroom : (sb : Int) * (N * 2 ^ b * 2 ^ b) + 8 ≤ 2 ^ (bitsOf big - 2)) :
     ∃ res, mulPlain big N b rs cnv b (effCols b K g) K pg (b * sb) = some res ∧ res.length = r + 1 ∧
-      (∀ c ∈ res, ColWF N rs c) ∧ (∀ c ∈ res, ∀ l ∈ c, ∀ x ∈ l, |x| ≤ 2 ^ b - 1) ∧
+      (∀ c ∈ res, ColWF N rs c) ∧ (∀ c ∈ res, ∀ l ∈ c, ∀ x ∈ l, |x| ≤ 2 ^ (b - 1)) ∧
       ∀ s : List Poly, ProdContractZ s N (Ks.mkCt b N res) (Mask.masked N b K g) (valP b N pg) (b * sb) cnv
         (-(cnvOffsetSplit b cnv).2).toNat (sn r s) := by
   have hb0 : 0 < b := ha.hb1
@@ -115,28 +116,36 @@ theorem mulPt_contract {N b r K : Nat} (hN : 0 < N) (big : Bool) (rs cnv : Nat) 
       constructor <;> linarith [this.1, this.2])
   have hmem0 : c0 ∈ g.cols := by rw [hg]; simp
   have hmems : ∀ c ∈ cs, c ∈ g.cols := fun c hc => by rw [hg]; simp [hc]
-  obtain ⟨res, hok, hrl, hwf, hrd, hrel⟩ := MulPt.mulPlain_coeff N hN big b rs cnv ha.hb1 ha.hb (c0.take L) (cs.map (fun c => c.take L)) K pg
+  have hacc : ∀ c ∈ (prepAll N (msbMaskBottomLimb b K) (c0.take L :: cs.map (fun c => c.take L))).map (fun x =>
+        Hal.cnvApplyCol N (L + pg.length - (cnvOffsetSplit b cnv).1) (cnvOffsetSplit b cnv).1 x
+          (Hal.cnvPrepareCol N pg.length (msbMaskBottomLimb b (b * sb)) pg)), ∀ l ∈ c, ∀ x ∈ l,
+        |x| ≤ (sb : Int) * (N * 2 ^ b * 2 ^ b) := by
+    intro c hc
+    obtain ⟨x, hx, rfl⟩ := List.mem_map.mp hc
+    have hxx : ∃ c1 ∈ g.cols, x = Hal.cnvPrepareCol N L (msbMaskBottomLimb b K) (c1.take L) := by
+      simp only [prepAll, List.map_cons, List.map_map, List.mem_cons, List.mem_map, Function.comp] at hx
+      rcases hx with rfl | ⟨c1, hc1, rfl⟩
+      · exact ⟨c0, hmem0, by rw [hlen c0 hmem0]⟩
+      · exact ⟨c1, hmems c1 hc1, by rw [hlen c1 (hmems c1 hc1)]⟩
+    obtain ⟨c1, hc1, rfl⟩ := hxx
+    have hb' := AccBound.cnvApplyCol_bound N (L + pg.length - (cnvOffsetSplit b cnv).1) (cnvOffsetSplit b cnv).1
+      (Hal.cnvPrepareCol N L (msbMaskBottomLimb b K) (c1.take L))
+      (Hal.cnvPrepareCol N pg.length (msbMaskBottomLimb b (b * sb)) pg) (2 ^ b) (2 ^ b) (by positivity) (by positivity)
+      (Mask.prep_digits N L b K ha.hb _ (hlen c1 hc1) hL1 (hlim c1 hc1) hK1 hK2 (hdig c1 hc1)) hPMd
+      (cnvPrepareCol_limbs N _ _ _ (hlim c1 hc1))
+    simpa [hpgl] using hb'
+  obtain ⟨res, hok, hrl, hwf, _, hrel⟩ := MulPt.mulPlain_coeff N hN big b rs cnv ha.hb1 ha.hb (c0.take L) (cs.map (fun c => c.take L)) K pg
     (b * sb) L (hlen c0 hmem0)
     (by intro x hx; obtain ⟨c, hc, rfl⟩ := List.mem_map.mp hx; exact hlen c (hmems c hc))
     (hlim c0 hmem0)
     (by intro x hx; obtain ⟨c, hc, rfl⟩ := List.mem_map.mp hx; exact hlim c (hmems c hc))
     hpg.2 hL1 (by rw [hpgl]; exact hsb) (by rw [hpgl]; exact hhi)
-    ((sb : Int) * (N * 2 ^ b * 2 ^ b)) (by positivity) hroom
-    (by
-      intro c hc
-      obtain ⟨x, hx, rfl⟩ := List.mem_map.mp hc
-      have hxx : ∃ c1 ∈ g.cols, x = Hal.cnvPrepareCol N L (msbMaskBottomLimb b K) (c1.take L) := by
-        simp only [prepAll, List.map_cons, List.map_map, List.mem_cons, List.mem_map, Function.comp] at hx
-        rcases hx with rfl | ⟨c1, hc1, rfl⟩
-        · exact ⟨c0, hmem0, by rw [hlen c0 hmem0]⟩
-        · exact ⟨c1, hmems c1 hc1, by rw [hlen c1 (hmems c1 hc1)]⟩
-      obtain ⟨c1, hc1, rfl⟩ := hxx
-      have hb' := AccBound.cnvApplyCol_bound N (L + pg.length - (cnvOffsetSplit b cnv).1) (cnvOffsetSplit b cnv).1
-        (Hal.cnvPrepareCol N L (msbMaskBottomLimb b K) (c1.take L))
-        (Hal.cnvPrepareCol N pg.length (msbMaskBottomLimb b (b * sb)) pg) (2 ^ b) (2 ^ b) (by positivity) (by positivity)
-        (Mask.prep_digits N L b K ha.hb _ (hlen c1 hc1) hL1 (hlim c1 hc1) hK1 hK2 (hdig c1 hc1)) hPMd
-        (cnvPrepareCol_limbs N _ _ _ (hlim c1 hc1))
-      simpa [hpgl] using hb')
+    ((sb : Int) * (N * 2 ^ b * 2 ^ b)) (by positivity) hroom hacc
+  have hrd : ∀ c ∈ res, ∀ l ∈ c, ∀ x ∈ l, |x| ≤ 2 ^ (b - 1) := by
+    have hok' := hok
+    unfold mulPlain at hok'
+    simp only [List.getD_cons_zero, hlen c0 hmem0] at hok'
+    exact Cnv.cnvList_balanced N big b rs _ _ _ ha.hb1 ha.hb _ _ _ (by positivity) hroom hacc res hok'
   refine ⟨res, by rw [heff]; exact hok, by rw [hrl]; simp [hcsl], hwf, hrd, fun s => ⟨fun t ht => ?_⟩⟩
   obtain ⟨q, e, he, hbd⟩ := hrel s t ht
   have hsz' : (Ks.mkCt b N res).size = rs := by
@@ -193,7 +202,7 @@ theorem dMulPtInto_sem {env : Env} {N r : Nat} (hN : 0 < N) {big : Bool} {dst a 
     (hhi : ∀ q, mulPtParams env dst.ct a.ct pt.md pt.maxK = .ok q →
       (cnvOffsetSplit env.base2k q.cnv).1 ≤ divCeil a.md.effK env.base2k + pt.size - 1)
     (hroom : (pt.size : Int) * (N * 2 ^ env.base2k * 2 ^ env.base2k) + 8 ≤ 2 ^ (bitsOf big - 2)) :
-    ∃ c', dMulPtInto env N big dst a pt pg = .ok c' ∧ c'.ct = m ∧ GB N env.base2k r (2 ^ env.base2k - 1) c'.g ∧
+    ∃ c', dMulPtInto env N big dst a pt pg = .ok c' ∧ c'.ct = m ∧ DOK env N r c' ∧
       ∀ s t, t < N → Near (decC s c' t)
         ((qNegMul (decPG s N (Mask.masked N env.base2k a.md.effK a.g) a.md.logBudget) (ptMsg env N pt pg)).getD t 0)
         (wrap c') (sn r s * ulp c') := by
@@ -285,7 +294,7 @@ theorem dMulPtInto_tracks {env : Env} {N r : Nat} (hN : 0 < N) {big : Bool} {dst
     {s : List Poly} {Ma : List ℚ} {Ea Ba Bp : ℚ} (hMa : Ma.length = N)
     (ta : ∀ t, t < N → Near (decC s a t) (Ma.getD t 0) (wrap a) Ea)
     (sA : SupLe Ma Ba) (sP : SupLe (ptMsg env N pt pg) Bp) (hBa : 0 ≤ Ba) (hBp : 0 ≤ Bp) (hEa : 0 ≤ Ea) :
-    ∃ c', dMulPtInto env N big dst a pt pg = .ok c' ∧ c'.ct = m ∧ GB N env.base2k r (2 ^ env.base2k - 1) c'.g ∧
+    ∃ c', dMulPtInto env N big dst a pt pg = .ok c' ∧ c'.ct = m ∧ DOK env N r c' ∧
       ∀ t, t < N → Near (decC s c' t) ((qNegMul Ma (ptMsg env N pt pg)).getD t 0) (wrap c')
         (sn r s * ulp c' + N * ((Ea + sn r s / 2 ^ a.md.logDelta) * Bp)) := by
   obtain ⟨c', hok, hcm, hgb, hv⟩ := dMulPtInto_sem hN hd ha hp hm hhi hroom
